@@ -146,6 +146,13 @@ def rand_spec(rng, opts=None):
             groups.append([kind, alts, True] if kind != "fsm" else [kind, alts])
         else:
             groups.append(["plain", [t]])
+    mgroups = []
+    if opts.get("mgroup") and rng.random() < opts.get("p_mgroup", 0.35):
+        cand = [mi for mi, ms in enumerate(methods) if ms.get("nested_in") is None and ms.get("ready_on_run") is None
+                and not any(m2.get("ready_on_run") == mi for m2 in methods)]
+        if len(cand) >= 2:
+            a, b = rng.sample(cand, 2)
+            mgroups.append(["if", [[a], [b]], rng.random() < 0.5])
     group_module = [0] * len(groups)
     if opts.get("multi"):
         nmod = rng.randint(1, 3)
@@ -173,7 +180,8 @@ def rand_spec(rng, opts=None):
     for mi, ms in enumerate(methods):
         if ms.get("ready_on_run") is not None:
             rels.append(["before", ["m", ms["ready_on_run"]], ["m", mi], False])
-    return dict(methods=methods, transactions=trs, relations=rels, groups=groups, group_module=group_module, witness=bool(opts.get("witness")))
+    return dict(methods=methods, transactions=trs, relations=rels, groups=groups, group_module=group_module, mgroups=mgroups,
+                witness=bool(opts.get("witness")))
 
 
 def _def_position(groups, ti):
@@ -389,8 +397,26 @@ class Design(Elaboratable):
                 self.tms[k] = TModule()  # a second/third module: own control-path namespace
                 m.submodules[f"mod{k}"] = self.tms[k]
         top = m
+        grouped = set()
+        for g in sp.get("mgroups") or []:
+            # methods DEFINED in different alternatives of a module-level If/Elif/Else (exclusive definitions)
+            _, alts, has_else = g
+            gnode = next(self.nid)
+            conds = []
+            for j, mis in enumerate(alts):
+                is_else = has_else and j == len(alts) - 1
+                if not is_else:
+                    c = self.inp(f"mg{gnode}_{j}")
+                ctx = m.If(c) if j == 0 else (m.Else() if is_else else m.Elif(c))
+                lit = [("n", x) for x in conds] + ([] if is_else else [("p", c)])
+                with ctx:
+                    for mi in mis:
+                        self._def_method(m, mi, [(("mod", 0), 0), (gnode, j)], lit, [])
+                        grouped.add(mi)
+                if not is_else:
+                    conds.append(c)
         for mi, ms in enumerate(sp["methods"]):
-            if ms.get("nested_in") is None:
+            if ms.get("nested_in") is None and mi not in grouped:
                 self._def_method(m, mi, [(("mod", 0), 0)], [], [])
         self.T = [None] * len(sp["transactions"])
 
